@@ -132,6 +132,7 @@ pub const NAMES: &[&str] = &[
     "LAST.DAT",    // 24
     "IN.DAT",      // 25
     "ALGN.DAT",    // 26 exactly three clusters, fragmented
+    "HIGH.DAT",    // 27 SUB/DEEP/HIGH.DAT on large FAT32 volumes: clusters 65535 -> 65536
 ];
 
 #[derive(Clone, Copy, Debug, PartialEq, Eq, Hash, PartialOrd, Ord)]
